@@ -428,6 +428,7 @@ pub fn run_c09(ctx: &Ctx) {
     );
     ctx.search("wide", ctx.n(120_000, 10_000_000), &move || gen::conformant_case(c, BuildOpts::WIDE), &oracle_c09);
     ctx.search("hostile", ctx.n(200_000, 20_000_000), &gen::hostile_case, &oracle_c09);
+    ctx.enumerate("boundary-counts", gen::boundary_count_cases(Proto::V9), false, &oracle_c09);
     for (k, name) in ["datagram-sized-many-records", "datagram-sized-many-fields", "datagram-sized-many-sets"].iter().enumerate() {
         let big = StreamCfg::datagram_sized(c.mix, k);
         ctx.search(name, ctx.n(120, 6_000), &move || with_strict(gen::conformant_case_lossless(big, LOSSLESS.big())), &oracle_c09);
@@ -445,6 +446,7 @@ pub fn run_c10(ctx: &Ctx) {
     );
     ctx.search("wide", ctx.n(120_000, 10_000_000), &move || gen::conformant_case(c, BuildOpts::WIDE), &oracle_c10);
     ctx.search("hostile", ctx.n(200_000, 20_000_000), &gen::hostile_case, &oracle_c10);
+    ctx.enumerate("boundary-counts", gen::boundary_count_cases(Proto::Ipfix), false, &oracle_c10);
     for (k, name) in ["datagram-sized-many-records", "datagram-sized-many-fields", "datagram-sized-many-sets"].iter().enumerate() {
         let big = StreamCfg::datagram_sized(c.mix, k);
         ctx.search(name, ctx.n(120, 6_000), &move || with_strict(gen::conformant_case_lossless(big, LOSSLESS.big())), &oracle_c10);
